@@ -111,10 +111,20 @@ def lexical_rule(chk, repo):
         if m2:
             rest_ok = m2
     n = 0
+    seen_pats = set()
+    # every string literal of the function (wherever it is bound or passed: `regex = r"..."`, re.compile(r"..."), ...)
+    # that parses as a regex containing identifier-shaped groups
     for node in walk_no_nested(fi.node):
-        if isinstance(node, ast.Assign) and isinstance(node.value, ast.Constant) and isinstance(node.value.value, str) and len(node.targets) == 1 and getattr(node.targets[0], "id", "") == "regex":
-            pat = node.value.value
-            for gid, first, rest in identifier_groups(pat):
+        if isinstance(node, ast.Constant) and isinstance(node.value, str) and "[" in node.value and "(" in node.value and node.value not in seen_pats:
+            pat = node.value
+            seen_pats.add(pat)
+            try:
+                groups = identifier_groups(pat)
+            except Exception:
+                continue
+            for gid, first, rest in groups:
+                if not (set("abcxyzABC") <= first):
+                    continue  # not an identifier class (e.g. a digit or quote class)
                 n += 1
                 missing_first = sorted(first_ok - first)
                 missing_rest = sorted((rest_ok - rest))
@@ -122,7 +132,7 @@ def lexical_rule(chk, repo):
                 chk.ob("C14.L.identifier-class", f"regex::{pat[:40]}::group{gid}", not missing_first and not missing_rest, file=FILE, func="fast_parse_verilog_netlist", line=node.lineno,
                        fact={"regex": pat, "group": gid, "first_chars_rejected": "".join(missing_first), "rest_chars_rejected": "".join(missing_rest)},
                        expect="accepts every first / following character the grammar's identifier terminal accepts")
-    chk.floor("identifier groups in the fast parser's regexes", n, 3)
+    chk.floor("identifier groups in the fast parser's regexes", n, 2)
 
 
 def writer_texts(P):
@@ -193,6 +203,24 @@ endmodule
   and a0 (y, q0, q1);
 endmodule
 """, [ff], "s"
+    yield "two-statements-on-one-line", """module l (a, b, y);
+  input a, b; output y;
+  wire w; nand g0 (w, a, b);
+  not n0 (y, w);
+endmodule
+""", [], "l"
+    yield "whole-netlist-on-one-line", "module o (a, b, y); input a, b; output y; wire w; and g0 (w, a, b); buf b0 (y, w); endmodule\n", [], "o"
+    yield "declarations-after-instances", """module d (a, b, y, z);
+  input a;
+  wire w;
+  and g0 (w, a, b);
+  input b;
+  not n0 (y, w);
+  output y;
+  buf b1 (z, b);
+  output z;
+endmodule
+""", [], "d"
     yield "net-named-tie0", """module t (a, y, z);
   input a;
   output y, z;
